@@ -119,10 +119,10 @@ func LockKey(recv ssa.Value) string {
 // LockInfo is the result of the must-hold lockset analysis of one function.
 type LockInfo struct {
 	Fn    *ssa.Function
-	Entry LockSet                      // locks held on entry (from callers), in the callee's own terms
-	At    map[ssa.Instruction]LockSet  // lockset BEFORE each call / map access instruction
-	In    map[*ssa.BasicBlock]LockSet  // lockset at block entry
-	Acq   []LockAcq                    // acquisitions with the lockset held at that point
+	Entry LockSet                     // locks held on entry (from callers), in the callee's own terms
+	At    map[ssa.Instruction]LockSet // lockset BEFORE each call / map access instruction
+	In    map[*ssa.BasicBlock]LockSet // lockset at block entry
+	Acq   []LockAcq                   // acquisitions with the lockset held at that point
 }
 
 // LockAcq is one acquisition.
